@@ -115,12 +115,15 @@ def table(srcdir="/repo/src"):
                 orders = re.findall(r"Ordering::(\w+)|\b(Relaxed|Release|Acquire|AcqRel|SeqCst)\b", body)
                 orders = [a or b for a, b in orders]
                 fences = len(re.findall(r"\bfence\(", body))
-                if locks + atom or calls:
+                # a clock read is an atomic load of shared state, too: where it happens relative
+                # to the lock matters (timer)
+                clock = len(re.findall(r"\.now\(\)", body))
+                if locks + atom + clock or calls:
                     key = rel + "::" + name
                     k2, c = key, 2
                     while k2 in t:
                         k2 = "%s#%d" % (key, c); c += 1
-                    t[k2] = dict(locks=locks, atomics=atom, orderings=orders, fences=fences, locking_calls=calls)
+                    t[k2] = dict(locks=locks, atomics=atom, orderings=orders, fences=fences, locking_calls=calls, clock_reads=clock)
     return t
 
 
